@@ -180,3 +180,80 @@ func VerifH_Txn_Reach() {
 	vCover("end")
 	vAssert(err != nil || !hit, "reach-twin")
 }
+
+// VerifH_C16_SharedTxn — two goroutines share one concurrent transaction (how the DAG sync uses it). Each performs
+// an operation chosen by the solver through a store accessor chosen by the solver (document, head, system, peer and
+// root stores, and the stores beneath the block store and the key store), then reads its key back. The root
+// transaction (kvmodel) is not safe for concurrent use — like a badger transaction — so the happens-before race
+// detector of the symbolic run reports any pair of accesses the wrapper does not serialise; every schedule within
+// the preemption bound is explored. Also: every write that reported success is in the final state.
+func VerifH_C16_SharedTxn() {
+	root := &vKV{}
+	ctx := context.Background()
+	txn := NewConcurrentTxnFrom(ctx, root, 1, false)
+	store := func(i int) corekv.ReaderWriter {
+		switch i {
+		case 0:
+			return txn.Datastore()
+		case 1:
+			return txn.Headstore()
+		case 2:
+			return txn.Systemstore()
+		case 3:
+			return txn.Peerstore()
+		case 4:
+			return txn.Rootstore()
+		case 5:
+			if b, ok := txn.Blockstore().(*bstore); ok {
+				return b.store
+			}
+		default:
+			if b, ok := txn.Encstore().(*bstore); ok {
+				return b.store
+			}
+		}
+		vBound(false, "block store is a *bstore")
+		return nil
+	}
+	s1 := vChoose("store", 7)
+	s2 := vChoose("store", 7)
+	vAssume(s1 <= s2) // the two goroutines are interchangeable
+	o1, o2 := vChoose("op", 4), vChoose("op", 4)
+	var errs [2]error
+	var wrote [2]bool
+	work := func(me int, s corekv.ReaderWriter, op int) func() {
+		key := []byte{'/', 'k', byte('0' + me)}
+		return func() {
+			switch op {
+			case 0:
+				errs[me] = s.Set(ctx, key, []byte{byte(me)})
+				wrote[me] = errs[me] == nil
+			case 1:
+				_, _ = s.Get(ctx, key)
+			case 2:
+				_, errs[me] = s.Has(ctx, key)
+			default:
+				it, err := s.Iterator(ctx, corekv.IterOptions{Prefix: []byte{'/'}})
+				errs[me] = err
+				if err == nil {
+					_, _ = it.Next()
+					_ = it.Close()
+				}
+			}
+			vYield()
+			if wrote[me] {
+				got, err := s.Get(ctx, key)
+				vAssert(err == nil && len(got) == 1 && got[0] == byte(me), "successful-write-is-in-the-transaction")
+			}
+		}
+	}
+	vRunThreads(work(0, store(s1), o1), work(1, store(s2), o2))
+	vCover("accessed")
+	vAssert(errs[0] == nil && errs[1] == nil, "no-error")
+	for me, s := range []corekv.ReaderWriter{store(s1), store(s2)} {
+		if wrote[me] {
+			got, err := s.Get(ctx, []byte{'/', 'k', byte('0' + me)})
+			vAssert(err == nil && len(got) == 1 && got[0] == byte(me), "successful-write-is-in-the-final-state")
+		}
+	}
+}
